@@ -1,5 +1,5 @@
 """Property -> harnesses registry."""
-import h_doc, h_c13, h_lib, h_squash, h_pos, h_paths, h_titles, h_actions, h_events, h_server, h_router, h_render
+import h_doc, h_c13, h_lib, h_squash, h_pos, h_paths, h_titles, h_actions, h_events, h_server, h_router, h_render, h_urlkind
 
 def doc(prog, tier):
     return h_doc.DocHarness(prog, tier)
@@ -61,6 +61,7 @@ WRITER_NOTE = ('writer: the real blocks_to_markdown_sparce / GraphBlock::to_mark
                'of the Projector\'s range; its text is read back by a reference reader (CommonMark block structure, mirsym/mdref.py) and must be the tree that was written; '
                'item numbers of top-level and quoted ordered lists are symbolic (digit count split by the solver); the reference reader is validated against the real '
                'reader on sampled / all paths and every violation is replayed through the real writer and the real reader; inline mark-up and escaping are outside')
+URLKIND_SPEC = {'make': lambda prog, tier: h_urlkind.UrlKindHarness(prog, tier), 'time_limit': {'quick': 120, 'thorough': 600}}
 RENDER_SPEC = {'make': lambda prog, tier: h_render.RenderHarness(prog, tier), 'time_limit': {'quick': 300, 'thorough': 1500}, 'tv_max': 600}
 SERVER_SPEC = {'make': lambda prog, tier: h_server.ServerHarness(prog, tier), 'time_limit': {'quick': 420, 'thorough': 1800}, 'crates': ('liwe', 'iwes')}
 ROUTER_SPEC = {'make': lambda prog, tier: h_router.RouterHarness(prog, tier), 'time_limit': {'quick': 300, 'thorough': 600}, 'crates': ('liwe', 'iwes')}
@@ -88,7 +89,7 @@ PROPS = {
         'handles the notification; fairness assumption: every worker terminates (while the loop thread sleeps, workers finish one by one); claimed for the loop-thread step '
         'Router::on_notification -> Server::handle_did_* -> Database::update_document; memory ordering, the channel and thread spawning are outside']},
     'C12': {'specs': [SERVER_SPEC, ACTIONS_SPEC, ACTIONS_LISTS_SPEC, dict(LIB_SPEC, crates=('liwe', 'iwes'))], 'notes': ACT_NOTES + ['claimed at the handler -> liwe boundary for code actions: action() for every provider x every node of a note never panics, and every offered action resolves (changes() is Some and does not panic); serde, Urls, the router and the other request kinds are outside']},
-    'C06': {'specs': [TITLES_SPEC, LIB_SPEC, KANI_C06], 'notes': COMMON + [
+    'C06': {'specs': [TITLES_SPEC, LIB_SPEC, URLKIND_SPEC, KANI_C06], 'notes': COMMON + [
         'decision kernel only: link kind x position x url form x (linking directory, target directory) x target has heading; output read from the projected GraphBlocks; '
         'the final "[text](url)" string and the refs_extension concatenation are outside',
         'relative-path join / relative / parent are native models validated against the real crate by the translator validation']},
@@ -104,7 +105,7 @@ PROPS = {
         '"fresh import of the final texts" is well defined; everything else (import, update_key, delete_branch, index, paths, lookups) is real MIR',
         'observations compared after every step, node ids renamed to (note, pre-order ordinal): block / inline backlinks of every key incl. a missing one, '
         'titles, collected trees, outline paths, block at a line (symbolic line)']},
-    'C05': {'specs': [LIB_SPEC, TITLES_SPEC, SERVER_SPEC], 'notes': COMMON + [
+    'C05': {'specs': [LIB_SPEC, TITLES_SPEC, SERVER_SPEC, URLKIND_SPEC], 'notes': COMMON + [
         'oracle: independent scan of the input Documents with the statement\'s resolution rule (relative to the linking note\'s directory, .md ignored, '
         'external URLs excluded); notes in the library root only (sub-directory resolution is string/path code, see not-claimed C15)']},
     'C13': {'specs': [KERNEL_SPEC, LINESTARTS_SPEC, POS_SPEC, POSB_SPEC, SERVER_SPEC, dict(LIB_SPEC, crates=('liwe', 'iwes')), KANI_C13], 'notes': COMMON + [
